@@ -37,6 +37,10 @@ func AclParser(be backend.Backend, logger s3log.AuditLogger, readonly bool) fibe
 		isRoot, acct := ctx.Locals("isRoot").(bool), ctx.Locals("account").(auth.Account)
 		path := ctx.Path()
 		pathParts := strings.Split(path, "/")
+		if len(pathParts) < 2 {
+			// a request target without a leading slash
+			return controllers.SendResponse(ctx, s3err.GetAPIError(s3err.ErrInvalidURI), &controllers.MetaOpts{Logger: logger})
+		}
 		bucket := pathParts[1]
 		if path == "/" && ctx.Method() == http.MethodGet {
 			return ctx.Next()
